@@ -74,6 +74,15 @@ def check(run):
         srcs += long_line_programs(rng, 8 if q else 80)
         import matrixgen
         srcs += matrixgen.sources(run, "c02", per_quick=12)
+        # every kind of user-named entity named like a Go keyword (the emitted text must still lex and parse as Go)
+        import namegen
+
+        for tpl in ("a", "b"):
+            for role in namegen.LOWER_ROLES:
+                for kw in (namegen.GO_KEYWORDS if not q else rng.sample(namegen.GO_KEYWORDS, 6)):
+                    names = dict(namegen.PLAIN)
+                    names[role] = kw
+                    srcs.append(namegen.render(names, tpl))
         srcs += EXTERN_PROGRAMS
         import c18 as c18mod
 
